@@ -133,7 +133,7 @@ def history(rng, maxlen=40, malformed=False):
                 lines.append("N %d n%d" % (g, rng.choice(have))); newnodes(g, 1)
         elif r < 0.64 and allnodes:
             n = rng.choice(allnodes[-8:] if rng.random() < 0.6 else allnodes)
-            lines.append("force n%d" % n); forced.append(n)
+            lines.append("%s n%d" % ("gforce" if rng.random() < 0.25 else "force", n)); forced.append(n)
         elif r < 0.70 and forced:
             lines.append("force n%d" % rng.choice(forced))        # re-request: value must not change
         elif r < 0.82 and allnodes:
@@ -141,11 +141,12 @@ def history(rng, maxlen=40, malformed=False):
             # probe block: gradients before, two backward passes, gradients after each
             for p in range(nparams):
                 lines.append("grad %d" % p)
-            lines.append("backward n%d" % n)
+            bw = "gbackward" if rng.random() < 0.3 else "backward"    # Graph::backward(node) / Node::backward()
+            lines.append("%s n%d" % (bw, n))
             for p in range(nparams):
                 lines.append("grad %d" % p)
             if rng.random() < 0.5:
-                lines.append("backward n%d" % n)
+                lines.append("%s n%d" % (bw, n))
                 for p in range(nparams):
                     lines.append("grad %d" % p)
         elif r < 0.86:
@@ -210,6 +211,8 @@ def oracle(lines, outs):
         if o == "skipped":
             break
         w = l.split()
+        if w and w[0] in ("gforce", "gbackward"):
+            w[0] = w[0][1:]              # the same requests through Graph::forward / Graph::backward
         if o.startswith("crash"):
             found.append(("C10", "graph:crash:%s" % w[0], "`%s` crashes (%s)" % (l, o), i))
             break
@@ -339,7 +342,7 @@ def run_family(chk, props, devices=("naive", "eigen"), tier=None):
             for i, l in enumerate(lines):
                 if impl[i] == "skipped":
                     break
-                chk.count(l, impl[i], impl[i].startswith("ok") and l.split()[0] in ("force", "backward", "grad", "L", "M", "S", "N", "R", "P"))
+                chk.count(l, impl[i], impl[i].startswith("ok") and l.split()[0] in ("force", "backward", "gforce", "gbackward", "grad", "L", "M", "S", "N", "R", "P"))
             if len(chk.samples) < 4 and chk.rng.random() < 0.05:
                 chk.samples.append({"family": "graph", "device": dev, "history": lines[:25], "impl_tail": impl[-6:]})
             # oracles on the implementation alone
